@@ -10,7 +10,7 @@ N = int(sys.argv[1]) if len(sys.argv) > 1 else 70
 SEED = int(sys.argv[2]) if len(sys.argv) > 2 else 17
 rnd = random.Random(SEED)
 
-SCALARS = ["bool", "i8", "i16", "i32", "i64", "u8", "u16", "u32", "f32", "f64", "String", "char"]
+SCALARS = ["bool", "i8", "i16", "i32", "i64", "u8", "u16", "u32", "f32", "f64", "String", "char", "u64", "i128", "u128", "i128", "u64"]
 RULES = [("lowercase", "lower"), ("UPPERCASE", "upper"), ("PascalCase", "pascal"), ("camelCase", "camel"), ("snake_case", "snake"),
          ("SCREAMING_SNAKE_CASE", "ssnake"), ("kebab-case", "kebab"), ("SCREAMING-KEBAB-CASE", "skebab")]
 FIELD_IDENTS = ["a", "b1", "my_field", "some_long_name", "x_y_z", "count", "id", "inner_value", "flag2", "the_name"]
@@ -39,6 +39,9 @@ def ty_expr(depth, allow_named=True, avoid_union=False):
     if depth >= 3 or roll < 0.45:
         s = rnd.choice(SCALARS)
         name = {"String": "string"}.get(s, s)
+        if s in ("i128", "u128"):
+            # serde's buffered Content (flatten, tagged enums) has no 128-bit integers: such a struct is no flatten target
+            cur["simple"] = False
         return s, name, scalar_gen(s), False
     if roll < 0.58:
         r, x, g, u = ty_expr(depth + 1, allow_named, avoid_union=True if rnd.random() < 0.93 else False)
@@ -75,6 +78,8 @@ def scalar_gen(s):
         "i32": "crate::genr::gen_int(rng)", "i64": "crate::genr::gen_long(rng)", "u8": "*rng.pick(&[0u8, 1, 255, 128])",
         "u16": "*rng.pick(&[0u16, 65535, 8192])", "u32": "*rng.pick(&[0u32, u32::MAX, 1 << 31, 7])",
         "f32": "*rng.pick(&[0.0f32, 1.5, -2.25, f32::MAX])", "f64": "*rng.pick(&[0.0f64, -1.5, 1e300, f64::MIN_POSITIVE])",
+        "u64": "*rng.pick(&[0u64, 1, u64::MAX, 1 << 63, 300])", "i128": "*rng.pick(&[0i128, -1, i128::MAX, i128::MIN, 1 << 100])",
+        "u128": "*rng.pick(&[0u128, u128::MAX, 1 << 127, 77])",
         "String": "crate::genr::gen_string(rng)", "char": "*rng.pick(&['a', 'é', '日', '\\u{1F600}'])",
     }[s]
 
